@@ -1,5 +1,6 @@
 import MgpuProofs.C19SysStep
 import MgpuProofs.C19Quiet2
+import MgpuProofs.C19SysTerm
 /-! # C19 — the migration handshake as one closed system: property theorems
 
 `SY.Sys` (`MgpuModel/C19_Sys.lean`) = the tick-exact driver stages (`DR.Drv`, tied by `c19 drv` lines) +
@@ -231,6 +232,50 @@ theorem handshake_no_fault_ordered {s : SY.Sys} (h : SY.Reach s) :
     | bcast p r σ loc hp hh' _ _ _ _ _ _ _ _ _ _ => rw [hh'] at hh; cases hh
     | mig r fl ws hh' _ _ _ _ _ _ _ => rw [hh'] at hh; cases hh
 
+/-! ## termination -/
+
+/-- **handshake_progress (c, the measure).** `rank s = (R s, L s)` ordered lexicographically — `R` = the
+    driver-level steps the requests known to the driver still need (phase changes, two per page still to be
+    migrated), `L` = every message in flight weighted by the hops it and everything it will spawn still
+    has to make (driver queues, command processors with their fan-outs to come, components, the two
+    controllers with network and memories, the answer to the MMU). In every reachable state:
+    1. no move other than a new request of the MMU increases the rank (any driver stage or tick, any
+       command-processor stage or tick, any connection transfer, any component taking or acknowledging a
+       request in any order, any controller / network / memory move);
+    2. unless the driver has nothing left to do for the MMU (`Quiescent`: not handling, no request waiting,
+       no answer on its way), some allowed move strictly decreases the rank: the system is never stuck. -/
+theorem handshake_progress {s : SY.Sys} (h : SY.Reach s) :
+    (∀ m : Mv, m.ok s → m.isSend = false → LexLe (rank (SY.step s m)) (rank s)) ∧
+    (¬ SY.Quiescent s → ∃ m : Mv, m.ok s ∧ m.isSend = false ∧ LexLt (rank (SY.step s m)) (rank s)) :=
+  ⟨fun m hm hs => rank_step_le (SY.reach_inv h) m hm hs, fun hq => enabled (SY.reach_inv h) hq⟩
+
+/-- **handshake_terminates (c).** Every infinite schedule of allowed moves without further MMU requests that
+    is fair — whenever some component can make progress, eventually a move that makes progress is taken —
+    reaches a state in which the driver is idle: every request the MMU ever sent was taken, answered and
+    the answer received (`mmuGot = mmuSent`), all five acknowledgement counters are 0, the driver's queues
+    are empty, no page migration request is in flight, and nothing is paused any more: every RDMA engine,
+    compute unit, address translator, cache and TLB of every GPU has been restarted. (The lexicographic
+    order on pairs of naturals is well founded: `lexLt_wf`.) -/
+theorem handshake_terminates {s0 : SY.Sys} {σ : Nat → Mv} {st : Nat → SY.Sys} (h0 : SY.Reach s0)
+    (hr : Run s0 σ st) (hf : Fair σ st) :
+    ∃ N, SY.Quiescent (st N) ∧ (st N).mmuGot = (st N).mmuSent ∧ (st N).drv.answered = (st N).drv.taken ∧
+      (st N).drv.drain = 0 ∧ (st N).drv.shoot = 0 ∧ (st N).drv.mig = 0 ∧ (st N).drv.restart = 0 ∧
+      (st N).drv.rdma = 0 ∧ (st N).drv.toSend = [] ∧ (st N).drv.toCP = [] ∧ (st N).w.live = [] ∧
+      ∀ g, ((st N).cm g).qRdma = [] ∧ ((st N).cm g).qCU = [] ∧ ((st N).cm g).qAT = [] ∧
+        ((st N).cm g).qCache = [] ∧ ((st N).cm g).qTLB = [] := by
+  obtain ⟨N, hq⟩ := fair_run_quiesces h0 hr hf
+  have hR := run_reach h0 hr N
+  obtain ⟨q1, q2, q3, q4⟩ := hq
+  obtain ⟨c1, c2, c3, c4, c5, c6, c7, _, c9, c10⟩ := (handshake_no_fault_ordered hR).2.2 q1
+  obtain ⟨m1, m2, m3, m4, pc, _, m5, m6⟩ := mmu_answered_once_in_order hR
+  have hpc := m6 q1
+  subst hpc
+  rw [q3] at m5
+  rw [q4] at m4
+  rw [q2] at m3
+  simp only [List.map_nil, List.append_nil] at m3 m4 m5
+  refine ⟨N, ⟨q1, q2, q3, q4⟩, by rw [m4, m5, m3], m5, c1, c2, c3, c4, c5, c6, c7, c9, c10⟩
+
 /-! ## full statements that the code does not meet -/
 
 /-- the full clause "the old frame is released": after `preparePageForMigration` the old physical page is
@@ -396,5 +441,17 @@ example : demoMid (SY.run (SY.step demoS0 (.mmuSend demoReq)) (demoMoves.take 55
 /-- the whole schedule: the request was taken and answered once, the MMU got the answer, the driver is idle,
     no request is live, and the new frame on GPU 2 (0xc0) holds the bytes of the old frame on GPU 1 (0x80) -/
 example : demoEnd (SY.run (SY.step demoS0 (.mmuSend demoReq)) demoMoves) = true := by decide +kernel
+
+/-- `handshake_progress` / `handshake_terminates` are not vacuous: right after the MMU's request the driver
+    is not quiescent, and along the schedule the rank goes from (9, 0) — a request of one page waiting — over
+    (3, 36) — the page being copied — down to (0, 0) -/
+example : ¬ SY.Quiescent (SY.step demoS0 (.mmuSend demoReq)) ∧
+    rank (SY.step demoS0 (.mmuSend demoReq)) = (9, 0) ∧
+    rank (SY.run (SY.step demoS0 (.mmuSend demoReq)) (demoMoves.take 55)) = (3, 36) ∧
+    rank (SY.run (SY.step demoS0 (.mmuSend demoReq)) demoMoves) = (0, 0) := by
+  refine ⟨fun h => ?_, by decide +kernel, by decide +kernel, by decide +kernel⟩
+  have := h.2.1
+  revert this
+  decide
 
 end C19
